@@ -198,6 +198,13 @@ def run(ctx):
                    "register admits a descriptor id once and unregister releases ids only of the collector it removes — otherwise collectors of different kinds meet in one family")
     ctx.run_rule("R5", lambda c: C06._as(c, "R5", lambda s_: (C07.rule_R2(s_, f), C06.rule_R1(s_, f), C06.rule_R2(s_, f), C06.rule_R4(s_, f)),
                                          keep=lambda k: "by-name-btreemap" in k or ".R1|" in k and "C07" not in k or ".R4|" in k or "check-a-id" in k))
+    # ... and that admission compares Desc.id: a counter and a gauge with the same name and const labels are kept apart only if equal descriptors get equal ids
+    # whatever the hash seed (seeded change C14-9: the id hashed before the const label pairs are sorted)
+    from . import C15
+    db = f.body(C15.D)
+    if ctx.anchor("R6", "Desc::new", db):
+        ctx.rule("R6", "descriptor identity is structural (shared with C15.R1-R3): the id is the hash of the name and the const label values in name order, independent of map iteration order")
+        ctx.run_rule("R6", lambda c: C06._as(c, "R6", lambda s_: (C15.rule_R1(s_, f, db), C15.rule_R2(s_, f, db), C15.rule_R3(s_, f, db))))
     if ctx.tier == "thorough":
         g = ctx.facts("plain")
         ctx.run_rule("R2@plain", lambda c: rule_R2(c, g))
